@@ -11,6 +11,7 @@ in A vs C.  Flexible arrays: allocation size and sizeof(p[0]).
 import sys, os
 from vlib import core, gen_types as G
 
+MEMCHECK_SAMPLE = 4
 RULE = ("case = (aggregate or array type from the C01 generator, random nested initializer): "
         "lists/tuples shorter than the field list, dicts, bytes for char arrays, cdata "
         "structs/arrays, nested mixes, union sequences, arrays of structs, flexible-array structs "
